@@ -90,8 +90,10 @@ def _finish_packet(rng, proto, v6, payload, field_mode, src, dst, sp, dp, l4, of
         correct = None        # IPv4: "not computed"; IPv6: not allowed at all (RFC 8200 8.1) - neither is a correct or a wrong checksum value, not judged
     if proto == 6 and field == b"\xff\xff" and good == b"\x00\x00":
         correct = None        # +0/-0 alias
-    fr = ns.eth_frame(b"\x02" * 6, b"\x04" * 6, ns.ip_packet(src, dst, proto, l4))
-    return fr, correct, {"proto": proto, "v6": v6, "len": len(payload), "field": field.hex(), "good": good.hex(), "src": src, "dst": dst, "sp": sp, "dp": dp}
+    # a quarter of the packets travel in VLAN tags, with IPv4 options or behind IPv6 extension headers: none of that is part of the pseudo header
+    enc = ns.random_encap(rng, v6) if rng.random() < 0.25 else ns.PLAIN
+    fr = ns.eth_frame(b"\x02" * 6, b"\x04" * 6, ns.ip_packet(src, dst, proto, l4, opts=enc.opts, ext=enc.ext), vlan=enc.vlan)
+    return fr, correct, {"proto": proto, "v6": v6, "len": len(payload), "field": field.hex(), "good": good.hex(), "src": src, "dst": dst, "sp": sp, "dp": dp, "encap": enc.describe()}
 
 
 def build(tier, seed):
@@ -143,7 +145,7 @@ def eval_direct(case, rng, thorough):
                 st = probe_rng.getstate()
                 small = target < 0x40000
                 fr0, _, i0 = mk_packet(probe_rng, case["proto"], case["v6"], b"", "good", small)
-                l4 = fr0[14 + (40 if case["v6"] else 20):]
+                l4 = fr0[ns.locate(fr0)[1]:]
                 off = 16 if case["proto"] == 6 else 6
                 base = wordsum(ns.pseudo(i0["src"], i0["dst"], case["proto"], len(l4)) + l4[:off] + b"\x00\x00" + l4[off + 2:])
                 pl = solve(base, target, rng)
@@ -171,7 +173,7 @@ def eval_direct(case, rng, thorough):
             st_rng = random.Random(rng.random())
             st = st_rng.getstate()
             fr0, _, i0 = mk_packet(st_rng, case["proto"], case["v6"], b"", "good")
-            l4 = fr0[14 + (40 if case["v6"] else 20):]
+            l4 = fr0[ns.locate(fr0)[1]:]
             off = 16 if case["proto"] == 6 else 6
             base = wordsum(ns.pseudo(i0["src"], i0["dst"], case["proto"], len(l4)) + l4[:off] + b"\x00\x00" + l4[off + 2:])
             pl = None
@@ -208,6 +210,9 @@ def eval_direct(case, rng, thorough):
             classes.add((case["id"][:14], mode, tclass if tclass != "rand" else "len%2=" + str(info["len"] % 2), "raised"))
             continue
         classes.add((case["id"][:14], mode, tclass if tclass != "rand" else "len%2=" + str(info["len"] % 2), bool(correct)))
+        if info["encap"] != "plain":
+            classes.add((case["id"][:14], "encap", info["encap"].split("+")[-1][:8], bool(correct)))
+            tclass += " in " + info["encap"]
         if bool(got) != bool(correct):
             bad.append((fr, f"{'TCP' if case['proto'] == 6 else 'UDP'}/{'IPv6' if case['v6'] else 'IPv4'} packet ({info['len']}B payload, checksum field {info['field']}, correct value "
                             f"{info['good']}, {tclass}): checksum is {'correct' if correct else 'wrong'} but the routine says {'correct' if got else 'wrong'}"))
@@ -243,10 +248,9 @@ def eval_direct(case, rng, thorough):
 
 
 def fr0_l4(fr, v6):
-    """transport segment of a frame built by mk_packet (no trailer: the caller measures before or the IP length decides)"""
-    if v6:
-        return fr[54:54 + int.from_bytes(fr[18:20], "big")]
-    return fr[34:14 + int.from_bytes(fr[16:18], "big")]
+    """transport segment of a frame built by mk_packet (a link-layer trailer may follow: the IP length decides)"""
+    _l3, l4off, end, _pr, _v6 = ns.locate(fr)
+    return fr[l4off:end]
 
 
 def eval_ones(case, rng, thorough):
@@ -319,21 +323,21 @@ def eval_e2e(case, rng):
         src = next((it for it in items if (it.seg is not None and getattr(it.seg, "payload", b"")) or quic), None)
         for _ in range(rng.randrange(20, 60) if src is not None else 0):
             fr = bytearray(src.frame)
-            end = 14 + (40 + int.from_bytes(fr[18:20], "big") if ep.v6 else int.from_bytes(fr[16:18], "big"))
-            fr[end - 1 - rng.randrange(max(1, min(8, end - (14 + (40 if ep.v6 else 20) + (8 if quic else 20)))))] ^= 1 << rng.randrange(8)
+            _l3, l4off, end, _pr, _v6 = ns.locate(fr)
+            fr[end - 1 - rng.randrange(max(1, min(8, end - (l4off + (8 if quic else 20)))))] ^= 1 << rng.randrange(8)
             out_items.append((scene.Item(bytes(fr), dir=src.dir, tag="bad"), True))
             nb += 1
     for it in items:
         has_payload = (it.seg is not None and getattr(it.seg, "payload", b"")) or quic
         if has_payload and mode in ("insert", "both") and rng.random() < 0.25:
             fr = bytearray(it.frame)
-            end = 14 + (40 + int.from_bytes(fr[18:20], "big") if ep.v6 else int.from_bytes(fr[16:18], "big"))      # end of the IP datagram (a link-layer trailer may follow)
-            fr[end - 1 - rng.randrange(max(1, min(8, end - (14 + (40 if ep.v6 else 20) + (8 if quic else 20)))))] ^= 1 << rng.randrange(8)      # payload byte flipped, checksum left as it was -> wrong
+            _l3, l4off, end, _pr, _v6 = ns.locate(fr)      # end of the IP datagram (a link-layer trailer may follow)
+            fr[end - 1 - rng.randrange(max(1, min(8, end - (l4off + (8 if quic else 20)))))] ^= 1 << rng.randrange(8)      # payload byte flipped, checksum left as it was -> wrong
             out_items.append((scene.Item(bytes(fr), dir=it.dir, tag="bad"), True))
             nb += 1
         if has_payload and mode in ("corrupt-real", "both", "flood") and rng.random() < (0.3 if mode == "flood" else 0.12):
             fr = bytearray(it.frame)
-            l4off = 14 + (40 if ep.v6 else 20)
+            l4off = ns.locate(fr)[1]
             coff = l4off + (6 if quic else 16)
             fr[coff + rng.randrange(2)] ^= 1 << rng.randrange(8)
             out_items.append((scene.Item(bytes(fr), dir=it.dir, tag="bad"), True))
